@@ -24,7 +24,7 @@ from translate import period as P
 from translate import period_ds as D
 
 YEARS = list(range(P.Y0, P.Y1 + 1))
-LOW_YEAR_KEY = "year-below-1000:leading-zeros-dropped"
+LOW_YEAR_KEY = "regression:year-below-1000:leading-zeros-dropped"   # repaired in /repo (aa363dc): not a known finding
 GREG_KEY = "regression:render:sdmx_gregorian:inexpressible-indicator:raw-duckdb-error"   # repaired in /repo: not a known finding
 
 
@@ -50,9 +50,9 @@ def py_vs_sql(ctx, sql, py, label) -> int:
                 j = next(i for i, (x, y) in enumerate(zip(a, rp)) if x != y)
                 bad.append((k, num, j, a[j], rp[j]))
             # every documented spelling denotes the same period as the others (engine-only predicate, both implementations)
-            if set(rs[6:]) != {rs[0]} and k[0] >= 1000:
+            if set(rs[6:]) != {rs[0]} and k[0] >= 1:
                 differ.append(("SQL vtl_period_normalize", k, num, rs[0], rs[6:]))
-            if set(rp[5:]) != {rp[0]} and k[0] >= 1000:
+            if set(rp[5:]) != {rp[0]} and k[0] >= 1:
                 differ.append(("Python check_time_period", k, num, rp[0], rp[5:]))
     ctx.count(None, n)
     if differ:
@@ -60,8 +60,8 @@ def py_vs_sql(ctx, sql, py, label) -> int:
         ctx.violation(f"spellings-disagree:{k[1]}", f"{label}: {w}: the documented spellings of {D.canon((k[0], k[1], num))} are read as {got}, "
                       f"canonical form {c} ({len(differ)} periods)", {"kind": "py_sql", "year": k[0], "ind": k[1], "num": num, "readings": got})
     if bad:
-        low = [b for b in bad if b[0][0] < 1000]
-        other = [b for b in bad if b[0][0] >= 1000]
+        low = [b for b in bad if b[0][0] < 1]
+        other = [b for b in bad if b[0][0] >= 1]
         if other:
             k, num, j, a, b = other[0]
             ctx.violation(f"py-sql-disagree:{k[1]}:col{j}", f"{label}: period {D.canon((k[0], k[1], num))} item {j}: SQL gives {a!r}, Python gives {b!r} "
@@ -149,7 +149,7 @@ def x_sampled_years(ctx) -> None:
     ys = sorted(set(([1, 4, 999, 1000, 1600, 9999] if ctx.tier == "thorough" else [4, 999, 1000, 9999])
                     + [ctx.rng.randint(1, 999) for _ in range(max(1, n // 10))]
                     + [ctx.rng.randint(1000, 9999) for _ in range(n)]))
-    hi = [y for y in ys if y >= 1000]
+    hi = [y for y in ys if y >= 1]      # since fix aa363dc the SQL side handles every year 1..9999
     lo = [y for y in ys if y < 1000]
     P.load_periods(hi)
     spec, sql = P.sql_string_rows()
@@ -157,17 +157,17 @@ def x_sampled_years(ctx) -> None:
     keys = [(y, i) for y in ys for i in P.INDS]
     # all sampled years by fingerprint; two of them (one below 1000, one above) pointwise as well
     fp = P.coq_fp("tie_string_fp", keys, {}, "c21sf")
-    pw_years = [lo[len(lo) // 2], hi[len(hi) // 2]]
+    pw_years = [lo[len(lo) // 2], [y for y in hi if y >= 1000][len(hi) // 4]]
     pw_keys = [(y, i) for y in pw_years for i in (P.INDS if ctx.tier == "thorough" else "ASQMW")]
     rows = P.coq_rows("tie_string_rows", pw_keys, {}, "c21s")
     bad_sql, bad_py, bad_spec = [], [], []
     nstr = 0
     for k in keys:
         ctx.count(("sample", k))
-        nstr += sum(len(r) for r in py[k]) + (sum(len(r) for r in sql[k]) + sum(len(r) for r in spec[k]) if k[0] >= 1000 else 0)
+        nstr += sum(len(r) for r in py[k]) + (sum(len(r) for r in sql[k]) + sum(len(r) for r in spec[k]) if k[0] >= 1 else 0)
         if fp[k][2] != P.fps([x for r in py[k] for x in r]):
             bad_py.append((k, "fingerprint"))
-        if k[0] >= 1000:
+        if k[0] >= 1:
             if fp[k][1] != P.fps([x for r in sql[k] for x in r]):
                 bad_sql.append((k, "fingerprint"))
             if fp[k][0] != P.fps([x for r in spec[k] for x in r]):
@@ -177,7 +177,7 @@ def x_sampled_years(ctx) -> None:
         d = P.first_diff([c[2] for c in sp], py[k])
         if d:
             bad_py.append((k, d))
-        if k[0] >= 1000:
+        if k[0] >= 1:
             d = P.first_diff([c[1] for c in sp], sql[k])
             if d:
                 bad_sql.append((k, d))
@@ -185,9 +185,9 @@ def x_sampled_years(ctx) -> None:
             if d:
                 bad_spec.append((k, d))
     ctx.count(None, nstr)
-    ctx.oblige(f"X: SQL string macros = Gallina *_impl on {len(hi)} sampled years of 1000..9999 (fingerprint; one year pointwise)", not bad_sql, str(bad_sql[:2]))
+    ctx.oblige(f"X: SQL string macros = Gallina *_impl on {len(hi)} sampled years of 0001..9999 (fingerprint; two years pointwise)", not bad_sql, str(bad_sql[:2]))
     ctx.oblige(f"X: Python functions = Gallina py_* on {len(ys)} sampled years of 0001..9999 (fingerprint; two years pointwise)", not bad_py, str(bad_py[:2]))
-    ctx.oblige(f"X: engine = documented forms on {len(hi)} sampled years of 1000..9999 (fingerprint; one year pointwise)", not bad_spec, str(bad_spec[:2]))
+    ctx.oblige(f"X: engine = documented forms on {len(hi)} sampled years of 0001..9999 (fingerprint; two years pointwise)", not bad_spec, str(bad_spec[:2]))
     py_vs_sql(ctx, {k: v for k, v in sql.items()}, {k: py[k] for k in sql}, "sampled years")
     ctx.cov["sampled_years"] = ys
     # years below 1000: the Python side drops the leading zeros (documented form YYYY); reproduce through run()
@@ -200,8 +200,7 @@ def x_sampled_years(ctx) -> None:
     ctx.count(("lowyear", y))
     if got != want:
         ctx.violation(LOW_YEAR_KEY, f"run() with Time_Period inputs {[r['Id_2'] for r in rows_in]} (DataFrame) and sdmx_reporting output returns {got}, "
-                                    f"documented representation {want}: TimePeriodHandler renders the year with f\"{{year}}\" (no zero padding), "
-                                    f"the SQL side then reads positions 1-4 as the year",
+                                    f"documented representation {want} (regression of fix aa363dc: the year field must keep its four digits)",
                       {"kind": "run", "script": "DS_r <- DS_1;", "structures": S, "rows": rows_in,
                        "kwargs": {"time_period_output_format": "sdmx_reporting"}, "expected": want, "observed": got})
 
@@ -249,7 +248,7 @@ def run_column(values: List[str], fmt: str, csv: bool = False) -> Dict[str, Any]
 
 def k_run_roundtrip(ctx) -> None:
     t0 = time.time()
-    ys = tier_years(ctx, 6)
+    ys = sorted(set(tier_years(ctx, 6) + [4, 999]))      # years below 1000 round-trip since fix aa363dc
     P.load_periods(ys)
     spec, sql = P.sql_string_rows()     # rows: [canonical, vtl, reporting, gregorian|~NONE, natural, spellings...]
     per = [(k, num, r) for k in sorted(spec) for num, r in enumerate(spec[k], 1)]
